@@ -154,6 +154,27 @@ def run_ch(task):
     return res
 
 
+def run_enum(task):
+    """native safety net next to a CrossHair condition whose inputs range over a small finite domain: the harness function is simply
+    called on every combination (CrossHair silently abandons paths on which a host TypeError passes through its own list/slice models)"""
+    import itertools
+    mod = _load_module(task['module'])
+    fn = getattr(mod, task['fn'])
+    names = list(task['domain'])
+    t0 = time.perf_counter()
+    n = 0
+    for combo in itertools.product(*[task['domain'][k] for k in names]):
+        n += 1
+        try:
+            ok = bool(fn(*combo))
+        except Exception:  # pylint: disable=broad-exception-caught
+            ok = False
+        if not ok:
+            return {'id': task['id'], 'kind': 'enum', 'state': 'refuted', 'cex': {'args': list(combo), 'kwargs': {}},
+                    'cex_message': 'native enumeration of the finite input domain', 'wall_s': round(time.perf_counter() - t0, 3), 'evaluated': n}
+    return {'id': task['id'], 'kind': 'enum', 'state': 'ok', 'evaluated': n, 'wall_s': round(time.perf_counter() - t0, 3)}
+
+
 def run_fn(task):
     if task['kind'] == 'lemma':
         _install_z3_counter()
@@ -192,6 +213,8 @@ def main():
         try:
             if task['kind'] == 'ch':
                 res = run_ch(task)
+            elif task['kind'] == 'enum':
+                res = run_enum(task)
             else:
                 res = run_fn(task)
         except BaseException as exc:  # pylint: disable=broad-exception-caught
